@@ -30,7 +30,7 @@ RULE = ('phase enum: every sequence of length <= L (L=3 quick, 4 thorough) that 
 ASSUMPTIONS = sqlmon.COMMON_ASSUMPTIONS
 SHARDS = {'quick': 4, 'thorough': 16}
 TIMEOUT = {'quick': 900, 'thorough': 3600}
-FLOORS = {'steps_checked': 3000, 'steps_changing_attempt': 1000, 'sql_routine:attempts_before_update': 1000, 'steps_after_end_reason_set': 200}
+FLOORS = {'prefixed_sequences': 1500, 'steps_checked': 3000, 'steps_changing_attempt': 1000, 'sql_routine:attempts_before_update': 1000, 'steps_after_end_reason_set': 200}
 
 T0 = 1_700_000_100_000
 GRID = [T0 - 10, T0, T0, T0 + 7]
@@ -99,6 +99,11 @@ def check_step(ctx, seq, k, op, old, new):
         end_earlier = new['end_time'] is not None and (old['end_time'] is None or new['end_time'] < old['end_time'])
         if b_new < b_old and not (timeout_report or end_earlier):
             out.append(('billed-decreased', f'billed {b_old} -> {b_new} by {op}'))
+        elif b_new < b_old and end_earlier and not timeout_report and new['start_time'] is not None:
+            # an earlier end takes back only what lies beyond it: billed may drop to (end - start), not below
+            floor_ = min(b_old, max(new['end_time'] - new['start_time'], 0))
+            if b_new < floor_:
+                out.append(('billed-decreased-below-what-the-earlier-end-forces', f'billed {b_old} -> {b_new} by {op} although the new end {new["end_time"]} leaves {floor_} of it inside the attempt'))
         if old['start_time'] is not None:
             if new['start_time'] is None:
                 if not timeout_report:
@@ -128,6 +133,28 @@ def run(ctx):
                 continue
             if n % ctx.n_shards == ctx.shard:
                 seqs.append(tup)
+    # phase prefixed: the enumeration above spends its length on getting an attempt started; here every suffix of <= 3 reports
+    # (complete / unschedule / deactivate / canceller completion / late start / heartbeat) follows a realistic prefix in which
+    # the attempt already has billed time (pool: activate, schedule, started, heartbeat; job-private: creating, activate, started, heartbeat)
+    reports = [a for a in A if a[0] in ('started', 'heartbeat', 'complete', 'unschedule', 'deactivate', 'cancel_complete')]
+    prefixes = [
+        (('activate',), ('schedule',), ('started', GRID[0]), ('heartbeat', GRID[1])),
+        (('activate',), ('schedule',), ('started', GRID[1]), ('heartbeat', GRID[3])),
+        (('creating', GRID[0]), ('activate',), ('started', GRID[1]), ('heartbeat', GRID[3])),
+        (('activate',), ('schedule',), ('heartbeat', GRID[1]), ('started', GRID[0])),
+    ]
+    Lp = ctx.pick(2, 3)
+    m = 0
+    n_prefixed = 0
+    for pre in prefixes:
+        for length in range(1, Lp + 1):
+            for tup in itertools.product(reports, repeat=length):
+                m += 1
+                cand = pre + tup
+                if m % ctx.n_shards == ctx.shard and admissible(cand):
+                    seqs.append(cand)
+                    n_prefixed += 1
+    ctx.count('prefixed_sequences', n_prefixed)
     n_random = ctx.pick(400, 3000)
     rr = ctx.rng('random-seqs')
     rand = []
